@@ -79,7 +79,7 @@ var typeError = reflect.TypeOf((*error)(nil)).Elem()
 
 func newYarnSpinnerFunction(function any) (YarnSpinnerFunction, error) {
 	functionType := reflect.TypeOf(function)
-	if functionType.Kind() != reflect.Func {
+	if functionType == nil || functionType.Kind() != reflect.Func || reflect.ValueOf(function).IsNil() {
 		return nil, fmt.Errorf("newYarnSpinnerFunction expects an argument which is a function")
 	}
 
